@@ -2,10 +2,12 @@
     Coq decides: the stack discipline of the tree builder for every well-formed surface expression, the
     escape table, and - for every expression as written, with any layout and any spelling of its characters -
     that the front end's own grammar (Generated/PegPeg.v, regenerated from peg.peg on every run) reads the
-    text back and makes exactly the builder calls that build the tree the expression denotes.  The file level
-    (package, imports, rule list) and the rejection of malformed text are decided by the correspondence run. *)
+    text back and makes exactly the builder calls that build the tree the expression denotes; the same for a
+    whole file (header comments, package, imports, parser type and state, the rules with either arrow).  The
+    rejection of malformed text, and that the Go builder does what Model/Front.v and Reader/FileBridge.v say
+    it does, are decided by the correspondence run. *)
 From PegV Require Import Base.Tac Spec.Syntax Spec.Peg Proofs.PegRel Model.Calls Model.Front Proofs.FrontProofs
-  Generated.PegPeg Reader.Base Reader.Lex Reader.Chars Reader.Lits Reader.Expr Reader.Bridge Reader.Top.
+  Generated.PegPeg Reader.Base Reader.Lex Reader.Chars Reader.Lits Reader.Expr Reader.Bridge Reader.File Reader.FileBridge Reader.Top.
 Open Scope Z_scope.
 
 (** For every surface expression without empty literals / classes / lists, the builder calls peg.peg's
@@ -65,6 +67,22 @@ Theorem C10_reader_expression_in_context :
 Proof. exact reader_expression_in_context. Qed.
 Print Assumptions C10_reader_expression_in_context.
 
+(** The reader, file level.  [f] is a grammar file as written: comments and blank runs before "package", the
+    package name, imports (single or grouped, with or without alias), "type" Name "Peg" { state }, and one or more
+    rules  name arrow expression  with either arrow spelling, each token with its layout.  peg.peg's own rule
+    tree reads all of [fshow f] from the rule Grammar, its actions make the calls [fcalls f], and the builder
+    (expression stack + the node under construction, tree/peg.go AddRule ... AddExpression, AddPeg/AddState)
+    is left with exactly the nodes the file denotes, every rule with the tree of its expression. *)
+Theorem C10_reader_file :
+  forall (nm ak : list rune -> nat) penv f, file_ok f ->
+  exists n fo evs nodes,
+    peg_ev pegpeg_d pegpeg_d_ptx (fshow f) penv n (EName pr_Grammar) 0 = Some (Succ (length (fshow f)) fo, evs) /\
+    calls_of_forest (fshow f) fo = fcalls f /\
+    frun nm ak (fcalls f) finit = Some {| back := nodes; pend := None; stk := []; pegn := None |} /\
+    file_nodes nm ak f = Some nodes.
+Proof. exact reader_file. Qed.
+Print Assumptions C10_reader_file.
+
 (** the lexical layer on its own: any layout is skipped; every spelling of a character is read as its call *)
 Theorem C10_reader_spacing :
   forall buf penv s rest p t, lay s -> stop rest -> At buf p (s ++ rest) ->
@@ -87,6 +105,14 @@ Example C10_reader_nonvacuous :
   | _ => None
   end = Some (53%nat, xcalls sample).
 Proof. split; [exact sample_wf|split; vm_compute; reflexivity]. Qed.
+
+Example C10_reader_file_nonvacuous :
+  file_ok sample_file /\
+  match peg_ev pegpeg_d pegpeg_d_ptx (fshow sample_file) (fun _ _ => false) 1500 (EName pr_Grammar) 0 with
+  | Some (Succ p f, _) => Some (p, calls_of_forest (fshow sample_file) f)
+  | _ => None
+  end = Some (length (fshow sample_file), fcalls sample_file).
+Proof. split; [exact sample_file_ok|vm_compute; reflexivity]. Qed.
 
 (** non-vacuity: ("ab" / [^x-z\0x41]) 'c'   flattens into the enclosing sequence only where addList does *)
 Example C10_nonvacuous :
